@@ -162,8 +162,8 @@ func c01Gen(tier string, rng *rand.Rand) []c01Case {
 	cfgs := append([]c01Cfg(nil), c01QuickCfgs...)
 	per := 2
 	if tier == "thorough" {
-		per = 6
-		for i := 0; i < 10; i++ {
+		per = 10
+		for i := 0; i < 14; i++ {
 			side := func() c01Side {
 				return c01Side{Legacy: rng.Intn(4) == 0, Mws: []int{0, 0, 1, 2, 5}[rng.Intn(5)], Pres: rng.Intn(4), Posts: rng.Intn(4)}
 			}
